@@ -10,11 +10,14 @@ ID = 'C09'
 RULE = ('every BSD syscall / Mach trap decoder (all BSC_* and MSC_* names, all of them in every run) x START tuples '
         'projected onto the decoder\'s domain with pairwise distinct words whose renderings are pairwise distinct, '
         'free END tuples, 0..2 lookups with comma/quote-free paths. Oracle: (2) a numeric literal shown at position k '
-        'is a rendering of START word k ({unsigned, signed-64, low-32, signed-32} x {dec, hex} or a boolean) and of '
+        'is a full-width rendering of START word k ({unsigned, signed} x {dec, hex}, or a boolean; low 32 bits only for the seconds of semaphore_timedwait) and of '
         'no other word of the START or END record; (1) changing only START word k never changes the call name, the '
         'arity or a numeric parameter at another position; (3) an enum-named parameter is injective over its domain; '
         '(4) the call part is unchanged when only the END record, the thread id, the timestamps or unrelated nested '
-        'records change, when a stray END precedes the window, and when an earlier unterminated START of the same call exists. Non-trivial: four pairwise distinct non-zero START words; distinct by (decoder, START tuple).')
+        'records change, when a stray END precedes the window, and when an earlier unterminated START of the same call exists; '
+        '(5) sentinel: with one START word set to a value that is special somewhere (AT_FDCWD 0xfffffffe, -1, -2, 0, 1, INT_MAX, 2^31, 2^32, ...) '
+        'every numeric parameter still shows its own word (a word that fits 32 bits may be shown as a signed int) and no other parameter moves; '
+        '(6) rendering a trace twice gives the same text. Non-trivial: four pairwise distinct non-zero START words; distinct by (decoder, START tuple).')
 ASSUMPTIONS = ['the call part is the text up to the parenthesis that closes name(',
                'parameters that are not decimal/hex literals (names, quoted paths, flag lists) are checked by C08/C11',
                'flag-list parameters may appear or disappear with another flag word (open mode shown only with O_CREAT): '
@@ -66,7 +69,15 @@ def render(name, a, e, lookups=(), tid=0x33, ts0=1000, nested=(), stray_end=Fals
            t.ktraces[0].eventid == EV.eid(name)]
     if len(out) != 1 or out[0].ktraces[0].func_qualifier != 1 or out[0].ktraces[-1].func_qualifier != 2:
         raise Violation(f'call-count:{name}', f'{name}: {len(out)} traces for one START..END window (stray END before it: {stray_end})')
-    return str(out[0])
+    return text_of(name, out[0])
+
+
+def text_of(name, trace):
+    """the text of a trace is a function of its records: rendering it twice gives the same text"""
+    first, second = str(trace), str(trace)
+    if first != second:
+        raise Violation(f'render-not-repeatable:{name}', f'{name}: rendered as {first!r}, then the same trace object as {second!r}')
+    return first
 
 
 # the only decoder that (legitimately) shows the low 32 bits of a START word: the seconds of a mach_timespec
@@ -76,13 +87,16 @@ LOW32_OK = {('MSC_semaphore_timedwait_trap', 1)}
 def full_renderings(a):
     a &= (1 << 64) - 1
     s = a - (1 << 64) if a >> 63 else a
-    return {str(a), hex(a), str(s), hex(s)}
+    out = {str(a), hex(a), str(s), hex(s)}
+    if 1 << 31 <= a < 1 << 32:
+        out |= {str(a - (1 << 32)), hex(a - (1 << 32))}      # the signed form of a word that is a 32-bit int (AT_FDCWD = -2)
+    return out
 
 
-def check_literals(name, a, e, params, txt):
+def check_literals(name, a, e, params, txt, only=None):
     for k, p in enumerate(params):
         p0 = TP.strip_comment(p)
-        if not NUM.match(p0):
+        if not NUM.match(p0) or (only is not None and k not in only):
             continue
         own = (renderings(a[k]) if (name, k) in LOW32_OK else full_renderings(a[k])) if k < 4 else set()
         others = {j: renderings(x) for j, x in enumerate(a + e) if j != k}
@@ -185,7 +199,39 @@ def prop_decoder(ctx, case):
     ctx.note([name, a], nontrivial=all(a) and len(set(a)) == 4, classes=cls)
 
 
-PROPS = {'decoder': prop_decoder}
+SENTINELS = [0xfffffffe, 0xffffffff, 0xfffffffffffffffe, 0xffffffffffffffff, 0, 1, 0x7fffffff, 0x80000000, 0x100000000, 0xffffff9c, 2, 3]
+
+
+def prop_sentinel(ctx, case):
+    """one START word holds a value that is special somewhere (AT_FDCWD, -1, 0, INT_MAX, ...): every numeric parameter
+    still shows its own START word, and the other parameters do not move"""
+    name, seed, slot, value = case['name'], case['seed'], case['slot'], case['value']
+    dw = distinct_words(name, seed)
+    if dw is None:
+        return
+    a, e = dw
+    b = list(a)
+    b[slot] = value
+    db = domains.project(name, 1, b)
+    if [int.from_bytes(db[8 * i:8 * i + 8], 'little') for i in range(4)] != b:
+        return        # the slot is enum-valued for this decoder: the value is outside its domain
+    if any(not renderings(value).isdisjoint(renderings(x)) for j, x in enumerate(a + e) if j != slot):
+        return
+    base = TP.split_call(guard(render, name, a, e))
+    txt = guard(render, name, b, e)
+    sc = TP.split_call(txt)
+    if sc is None or base is None or sc[0] != base[0]:
+        raise Violation(f'call-shape:{name}', f'{name}: START {b} renders {txt!r}')
+    # positions that show a plain number for ordinary words (a flag list with no declared bit set also reads "0")
+    plain = {i for i, p in enumerate(base[1]) if NUM.match(TP.strip_comment(p))}
+    check_literals(name, b, e, sc[1], txt, only=plain)
+    for i, p in enumerate(base[1]):
+        if i != slot and NUM.match(TP.strip_comment(p)) and (i >= len(sc[1]) or TP.strip_comment(sc[1][i]) != TP.strip_comment(p)):
+            raise Violation(f'position-leak:{name}', f'{name}: START word {slot} = {value:#x} changed parameter {i}: {base[1]} -> {sc[1]}')
+    ctx.note([name, slot, value], nontrivial=True, classes=['sentinel:%#x' % value])
+
+
+PROPS = {'decoder': prop_decoder, 'sentinel': prop_sentinel}
 
 
 def names():
@@ -200,5 +246,9 @@ def run(ctx):
               'long_window': [300, 1000, 260, 520][(i + r) % 4] if (i + 7 * r + ctx.seed) % 53 == 0 else 0}
              for r in range(ctx.n(20, 500)) for i, n in enumerate(names())]
     ctx.run_enum('decoder', cases, prop_decoder, exhaustive_label='every BSC_/MSC_ decoder name (tuples sampled)')
+    ns = len(SENTINELS)
+    sent = [{'name': n, 'seed': base + 17 * i + r, 'slot': slot, 'value': SENTINELS[r] if r < 2 else SENTINELS[2 + (i + slot + r + ctx.seed) % (ns - 2)]}
+            for r in range(ctx.n(3, 2 * ns)) for i, n in enumerate(names()) for slot in range(4)]
+    ctx.run_enum('sentinel', sent, prop_sentinel, exhaustive_label='every decoder x every START slot x special values (quick: AT_FDCWD, 0xffffffff and one of the ten others per slot, rotating with the seed)')
     strat = st.fixed_dictionaries({'name': st.sampled_from(names()), 'seed': st.integers(0, 2 ** 62), 'lookups': st.integers(0, 2)})
     ctx.run_given('decoder', strat, prop_decoder, ctx.n(500, 10000))
